@@ -6,7 +6,7 @@ use std::ffi::CString;
 use std::fs::File;
 use std::io::{self, Read, Seek};
 use std::os::fd::{AsFd, BorrowedFd};
-use std::os::unix::io::{AsRawFd, RawFd};
+use std::os::unix::io::{AsRawFd, FromRawFd, RawFd};
 use std::sync::{Arc, Mutex, RwLock, Weak};
 
 use super::statx::statx;
@@ -133,6 +133,9 @@ impl MountFds {
                     .error_for(mount_id, io::Error::last_os_error())
                     .prefix(format!("Failed to open mount point \"{mount_point}\"")));
             }
+            // Only needed to validate and reopen the mount point, close it when done.
+            // Safe because we have just opened this fd and nothing else owns it.
+            let mount_point_fd = unsafe { File::from_raw_fd(mount_point_fd) };
 
             // Check the mount point has the expected `mount_id`.
             let st_mode = self.validate_mount_id(mount_id, &mount_point_fd, &mount_point)?;
